@@ -201,6 +201,7 @@ func runCheck(opt *checkOpts) int {
 			c = repo.newCtx(fc.Pkg)
 			c.refuted = refuted
 			c.skipProp = skip
+			c.property = opt.property
 			lf := newFrame(c, nil, nil, "lemmas")
 			for _, lm := range repo.cs.Lemmas {
 				if lm.Pkg == fc.Pkg && !refuted[lm.Pkg+".lemma."+lm.Name+"#proof"] {
